@@ -25,6 +25,8 @@ type GenConfig struct {
 	NoConsts   bool
 	// ConstraintBias: scalars get bounds with probability 1/2 instead of 1/4.
 	ConstraintBias bool
+	// NoBytes: no `bytes` fields (OpenAPI format: byte)
+	NoBytes bool
 	// NoAny: no `any` typed fields (their values cannot be compared structurally in some checks)
 	NoAny bool
 	// Intersection: only constructs every format can express
@@ -35,6 +37,12 @@ type GenConfig struct {
 	// known to mishandle several of these shapes, so checks draw them in a
 	// fraction of the models only and tag their signatures.
 	NestedCollections bool
+	// SafeNames: field names that are not keywords / builtins of any target
+	// language (the default pool is full of them on purpose)
+	SafeNames bool
+	// Intersections: declare an allOf of two struct definitions and refer to it
+	// (JSON Schema / OpenAPI only)
+	Intersections bool
 	// NamedUnions: declare a named union of the variant structs and refer to it
 	NamedUnions bool
 	// ExplicitMappings: render explicit OpenAPI discriminator mappings (cog
@@ -102,7 +110,11 @@ func Draw(t *rapid.T, cfg GenConfig) *Model {
 	g := &mgen{t: t, cfg: cfg, f: cfg.Format, m: &Model{Format: cfg.Format, Package: rapid.SampledFrom([]string{"sample", "demo", "dash"}).Draw(t, "pkg")}}
 	g.disc = rapid.SampledFrom([]string{"kind", "type"}).Draw(t, "disc")
 	taken := map[string]bool{}
-	nStructs := rapid.IntRange(1, max(1, cfg.MaxDefs-3)).Draw(t, "nstructs")
+	minStructs := 1
+	if cfg.Intersections {
+		minStructs = min(3, max(1, cfg.MaxDefs-3))
+	}
+	nStructs := rapid.IntRange(minStructs, max(1, cfg.MaxDefs-3)).Draw(t, "nstructs")
 	g.structs = pickDistinct(t, defNamePool, nStructs, "structnames", taken)
 	nVariants := rapid.SampledFrom([]int{0, 2, 2, 3}).Draw(t, "nvariants")
 	g.variants = pickDistinct(t, variantNamePool, nVariants, "variantnames", taken)
@@ -144,6 +156,12 @@ func Draw(t *rapid.T, cfg GenConfig) *Model {
 	}
 	for _, name := range g.enums {
 		g.m.Defs = append(g.m.Defs, Def{Name: name, Type: enumDefs[name]})
+	}
+	if cfg.Intersections && cfg.Format != CUE && !cfg.Intersection && len(g.structs) >= 3 {
+		g.m.Defs = append(g.m.Defs, Def{Name: "Combined", Type: T{Kind: KIntersection, Refs: []string{g.structs[len(g.structs)-2], g.structs[len(g.structs)-1]}}})
+		// the entry point refers to it
+		entry := &g.m.Defs[0].Type
+		entry.Fields = append(entry.Fields, Field{Name: "combined", Type: T{Kind: KRef, Ref: "Combined"}, Required: rapid.Bool().Draw(t, "combinedrequired")})
 	}
 	if g.namedUnion != "" {
 		g.m.Defs = append(g.m.Defs, Def{Name: g.namedUnion, Type: T{Kind: KUStructs, Refs: append([]string{}, g.variants...), Discriminator: g.disc}})
@@ -202,8 +220,21 @@ func (g *mgen) enumType(ints bool) T {
 	return ty
 }
 
+// safeFieldNamePool holds no keyword, predeclared identifier or builtin of any
+// target language.
+var safeFieldNamePool = []string{
+	"title", "uid", "tags", "options", "refresh_rate", "timeFrom", "links", "mode", "value",
+	"values", "name", "labels", "enabled", "size", "parent", "children", "spec",
+	"items", "color", "unit", "decimals", "threshold", "legend", "placement", "width", "height", "gridPos",
+	"datasource", "expr", "interval", "hidden", "tooltip", "axis", "series", "stack",
+}
+
 func (g *mgen) fieldNames(n int) []string {
-	return pickDistinct(g.t, fieldNamePool, n, "fieldnames", map[string]bool{normName(g.disc): true})
+	pool := fieldNamePool
+	if g.cfg.SafeNames {
+		pool = safeFieldNamePool
+	}
+	return pickDistinct(g.t, pool, n, "fieldnames", map[string]bool{normName(g.disc): true})
 }
 
 func (g *mgen) structType(depth int, variant string) T {
@@ -263,7 +294,7 @@ func (g *mgen) denseStruct() T {
 			chosen = append(chosen, c)
 		}
 	}
-	names := g.fieldNames(len(fieldNamePool))
+	names := g.fieldNames(len(safeFieldNamePool))
 	ni := 0
 	for _, c := range chosen {
 		ft, ok := g.classType(c, 2)
@@ -512,6 +543,9 @@ func (g *mgen) classType(c string, depth int) (T, bool) {
 		}
 		t = T{Kind: KRef, Ref: rapid.SampledFrom(g.structs[1:]).Draw(g.t, "nref"), Nullable: true}
 	case "bytes":
+		if g.cfg.NoBytes {
+			return T{}, false
+		}
 		t = T{Kind: KBytes}
 	case "default_string":
 		t = T{Kind: KString, Default: Raw(rapid.SampledFrom([]string{"hello", "", "a \"quoted\" ünï", "x", "%H:%M 50% of %s", "back\\slash $x {y}"}).Draw(g.t, "dstr"))}
